@@ -205,3 +205,46 @@ func VerifH_C12_addBesideNestedGroup() {
 	}
 	vCover("converted")
 }
+
+// dropping a column must not disturb the levels of a required leaf nested in
+// optional groups: its nulls come from the null enclosing groups.
+func VerifH_C12_dropKeepsNestedLevels() {
+	vUnwind(64)
+	nested := func() Node { return Optional(Group{"b": Optional(Group{"x": Leaf(Int64Type)})}) }
+	src := NewSchema("src", Group{"a": nested(), "c": Leaf(Int64Type)})
+	dst := NewSchema("dst", Group{"a": nested()})
+	conv, err := Convert(dst, src)
+	vAssert(err == nil, "conversion is accepted")
+	if err != nil {
+		return
+	}
+	nrows := vChoose("rows", 1, 2)
+	rows := make([]Row, nrows)
+	defs := make([]int, nrows)
+	xs := make([]int64, nrows)
+	for r := range rows {
+		defs[r] = vChoose("def", 0, 2)
+		var x Value
+		if defs[r] == 2 {
+			xs[r] = vI64("x")
+			x = makeValueInt64(xs[r]).Level(0, 2, 0)
+		} else {
+			x = Value{}.Level(0, defs[r], 0)
+		}
+		rows[r] = Row{x, makeValueInt64(vI64("c")).Level(0, 0, 1)}
+	}
+	n, err := conv.Convert(rows)
+	vAssert(err == nil && n == nrows, "every row is converted")
+	for r := 0; r < nrows && r < n; r++ {
+		vAssert(len(rows[r]) == 1, "the dropped column is gone")
+		if len(rows[r]) != 1 {
+			return
+		}
+		v := rows[r][0]
+		vAssert(v.Column() == 0 && int(v.definitionLevel) == defs[r] && v.repetitionLevel == 0, "definition level of the nested leaf is preserved")
+		if defs[r] == 2 {
+			vAssert(!v.IsNull() && v.Int64() == xs[r], "value is preserved")
+		}
+	}
+	vCover("converted")
+}
